@@ -14,7 +14,43 @@ import (
 )
 
 type Locker = sync.Locker
-type Pool = sync.Pool
+
+// Pool is a deterministic sync.Pool: a LIFO free list that never drops an
+// object (the standard pool drops and migrates objects depending on the
+// processor the goroutine runs on, and randomly under the race detector, which
+// would make runs unrepeatable). Always retaining is behaviour the contract of
+// sync.Pool allows, and it is the behaviour under which use-after-Put shows.
+// Put happens-before the Get that returns the object, as in the standard pool.
+type Pool struct {
+	New  func() any
+	mu   sync.Mutex
+	free []any
+}
+
+func (p *Pool) Get() any {
+	verifsim.Yield(verifsim.SiteMapOp)
+	p.mu.Lock()
+	var x any
+	if n := len(p.free); n > 0 {
+		x = p.free[n-1]
+		p.free = p.free[:n-1]
+	}
+	p.mu.Unlock()
+	if x == nil && p.New != nil {
+		x = p.New()
+	}
+	return x
+}
+
+func (p *Pool) Put(x any) {
+	if x == nil {
+		return
+	}
+	verifsim.Yield(verifsim.SiteMapOp)
+	p.mu.Lock()
+	p.free = append(p.free, x)
+	p.mu.Unlock()
+}
 
 type Mutex struct{ mu sync.Mutex }
 
@@ -40,7 +76,13 @@ func (m *Mutex) Unlock() {
 	verifsim.Yield(verifsim.SiteUnlock)
 }
 
-type RWMutex struct{ mu sync.RWMutex }
+// RWMutex models sync.RWMutex including writer preference: while a writer waits
+// in Lock, new readers block (also a reader that already holds a read lock,
+// which is how a recursive RLock deadlocks in the standard library).
+type RWMutex struct {
+	mu       sync.RWMutex
+	pendingW int
+}
 
 //go:norace
 func (m *RWMutex) Lock() {
@@ -49,9 +91,12 @@ func (m *RWMutex) Lock() {
 		return
 	}
 	verifsim.Yield(verifsim.SiteLock)
+	m.pendingW++
 	for !m.mu.TryLock() {
+		verifsim.ProbeHit(verifsim.ProbeLockBlocked)
 		verifsim.Block(uintptr(unsafe.Pointer(m)))
 	}
+	m.pendingW--
 }
 
 //go:norace
@@ -68,7 +113,8 @@ func (m *RWMutex) RLock() {
 		return
 	}
 	verifsim.Yield(verifsim.SiteLock)
-	for !m.mu.TryRLock() {
+	for m.pendingW > 0 || !m.mu.TryRLock() {
+		verifsim.ProbeHit(verifsim.ProbeLockBlocked)
 		verifsim.Block(uintptr(unsafe.Pointer(m)))
 	}
 }
